@@ -2,7 +2,7 @@
 from worldcheck import *
 
 PROP = "C17"
-THEOREMS = []
+THEOREMS = [tuple(x) for x in json.load(open(os.path.join(VERIF, "lib", "pins", PROP + ".json")))]
 
 
 def monitor_regen(run, where, inv, meta, hist, ii, rep):
